@@ -60,12 +60,56 @@ func (w *World) emit(sender *Node, to int, bcast bool, data []byte) {
 		w.sendByz(b, m)
 		return
 	}
+	if b.torsionFor >= 0 && m.Kind == "vec" && w.t >= 2 {
+		// torsion-cancelling attack: A_p + T and A_q + cT with x^p + c x^q = 0 mod ord(T) for the
+		// index x of ONE chosen participant: its public key share is unchanged, the vector is on
+		// the curve but two of its points are outside G2
+		which := w.c.Choose(5, "torsion.which")
+		p := 1 + w.c.Choose(w.t-1, "torsion.p")
+		q := p + 1 + w.c.Choose(w.t-p, "torsion.q")
+		if cc, ok := curve.CancelCoeff(which, int64(b.torsionFor+1), p, q); ok {
+			pl := append([]byte(nil), m.Data[1:]...)
+			ep, e1 := curve.G2PlusMultiple(pl[96*p:96*p+96], which, 1)
+			eq, e2 := curve.G2PlusMultiple(pl[96*q:96*q+96], which, cc)
+			if e1 == nil && e2 == nil {
+				copy(pl[96*p:], ep)
+				copy(pl[96*q:], eq)
+				m.Data = append([]byte{tagVec}, pl...)
+				m.Poly, m.Well, m.Shape = "X", false, false
+				m.Label = fmt.Sprintf("byz:torsion-cancelling-vector:for%d:A%d+T,A%d+%dT", b.torsionFor, p, q, cc)
+				w.fault("byz.torsion_cancelling_vector")
+				w.sendByz(b, m)
+				return
+			}
+		}
+	}
 	action := 0
 	if w.faultBudget > 0 && w.c.Bool(w.pFault, 16, "byz.fault?") {
-		action = 1 + w.c.Choose(5, "byz.action")
+		action = 1 + w.c.Choose(6, "byz.action")
 		w.faultBudget--
 	}
+	if a, ok := b.bias[m.Kind]; ok && action == 0 && w.c.Bool(2, 3, "byz.bias?") {
+		action = a
+	}
+	if action != 0 && m.Kind == "share" {
+		b.faulted = append(b.faulted, to)
+	}
 	switch action {
+	case 6: // hold back: sent later in the same round, after whatever the participant sends in between
+		m.Label = "byz:held-back"
+		w.fault("byz.heldback." + m.Kind)
+		b.held = append(b.held, m)
+		r := w.maxRound
+		if sender.round > r {
+			r = sender.round // the sender's own timer just fired: it is the first node of the new round
+		}
+		if r < 1 {
+			r = 1
+		}
+		if r <= 3 {
+			w.script[r] = append(w.script[r], b.idx)
+		}
+		w.ev("byz %d holds back %s to %d", b.idx, m.Kind, to)
 	case 0:
 		w.sendByz(b, m)
 	case 1: // omit
@@ -329,6 +373,19 @@ func (w *World) otherScalar(b *Byz, j int, tag byte, rnd *choice.Src, hdr []byte
 // inject performs one unsolicited Byzantine action of participant b, landing in `round`.
 func (w *World) inject(b *Byz, round int) {
 	c := w.c
+	if len(b.held) > 0 {
+		// release a held-back message now: it takes its place in the sender's broadcast order here
+		m := b.held[0]
+		b.held = b.held[1:]
+		if m.Round < round {
+			m.Round = round
+		}
+		w.ev("byz %d releases held-back %s", b.idx, m.Kind)
+		if !b.crashed {
+			w.sendByz(b, m)
+		}
+		return
+	}
 	rnd := c.Sub("inject.rnd")
 	w.fault("byz.unsolicited")
 	if b.crashed {
@@ -350,6 +407,9 @@ func (w *World) inject(b *Byz, round int) {
 	switch c.Choose(7, "inject.what") {
 	case 0: // answer nobody asked for (or asked for), correct or not
 		j := otherThan(b.idx, "inject.answer.for")
+		if len(b.faulted) > 0 && c.Bool(1, 2, "inject.answer.prefer") {
+			j = b.faulted[c.Choose(len(b.faulted), "inject.answer.faulted")]
+		}
 		var data []byte
 		poly, idx, how := "X", j, ""
 		switch c.Choose(4, "inject.answer.kind") {
@@ -410,6 +470,9 @@ func (w *World) inject(b *Byz, round int) {
 		w.sendByz(b, m)
 	case 3: // another private share
 		j := otherThan(b.idx, "inject.share.to")
+		if len(b.faulted) > 0 && c.Bool(1, 2, "inject.share.prefer") {
+			j = b.faulted[c.Choose(len(b.faulted), "inject.share.faulted")]
+		}
 		var m *Msg
 		switch c.Choose(4, "inject.share.kind") {
 		case 0:
